@@ -70,12 +70,11 @@ with open(os.path.join(HERE, "MANIFEST.json"), "w") as fd:
     json.dump(manifest, fd, indent=1)
     fd.write("\n")
 
-try:
-    sys.path.insert(0, "/opt/veriftools/pyvenv/lib/python3.11/site-packages")
-    import jsonschema
+import subprocess
 
-    schema = json.load(open("/root/.vp/MANIFEST.schema.json"))
-    jsonschema.validate(manifest, schema)
-    print("MANIFEST.json valid;", len(checks), "claimed,", len(not_applicable), "not claimed")
-except ImportError:
-    print("MANIFEST.json written (jsonschema not importable here);", len(checks), "claimed")
+code = ("import json, jsonschema; jsonschema.validate(json.load(open('%s/MANIFEST.json')), "
+        "json.load(open('/root/.vp/MANIFEST.schema.json'))); print('MANIFEST.json valid')" % HERE)
+r = subprocess.run(["python3-vt", "-c", code], stdout=subprocess.PIPE, stderr=subprocess.STDOUT)
+print(r.stdout.decode().strip()[-400:], ";", len(checks), "claimed,", len(not_applicable), "not claimed")
+if r.returncode:
+    sys.exit(1)
